@@ -1085,3 +1085,46 @@ def c18():
 
 
 CHECKS.update({"C04": c04, "C18": c18})
+
+
+# =========================================================================== C16
+def c16():
+    ck = Check("C16", "model_checking")
+    q = ck.quick()
+    mc_layout(ck, 6 if q else 8)
+    forests = export_shapes(3)
+    uni = universe_programs(forests if not q else ck.rng.sample(forests, 40), toff_fn=lambda i, f: stable_toff(f))
+    progs = fixed_programs() + hist_programs() + uni
+    build_programs(progs)
+    ok = usable(progs)
+    load_schemas(ok)
+    recs = export_records([(p.key, p.schema) for p in ok], 2, 12 if q else 40, ck.seed)
+    words = [w for w in export_histories(5 if q else 7) if "a" in w]
+    distinct = set()
+    for p in ok:
+        rr = recs[p.key]["recs"]
+        p.cases = layout_cases(p, rr, ck.seed, light=True)
+        if p.key.startswith("hist:"):
+            cyc = rec_cycle(rr, ck.seed)
+            for wi, w in enumerate(words):
+                p.cases.append({"page": 1 + wi % 3, "codec": CODECS[wi % 3], "poff": wi % 16, "ops": ops_of(w, cyc), "light": True})
+        for c in p.cases:
+            c["intro"] = True
+            ck.add("evaluations")
+            h = history_key(p, c)
+            if c["page"] < 1000 or h.count("w") > 1:
+                distinct.add((h, c["page"], c["codec"]))
+    ck.cov["distinct_nontrivial"] = len(distinct)
+    ck.cov["rule"] = ("every file written by the programs of F, the history schemas (every Add/Write history up to the bound) and programs of the bounded grammar "
+                      "in four layouts x codecs: ReadMetaData, PageHeaders and PageHeadersAtOffset (from every chunk offset with its value count and from "
+                      "EVERY page offset with the remaining count) compared by TLC with the independent footer decode and page walk; non-trivial = more than "
+                      "one page per chunk or more than one row group")
+    ck.cov["exhaustive"] = False
+    run_programs(ok, "c16")
+    ck.sample({"program": ok[0].key, "calls": ["ReadMetaData", "PageHeaders", "PageHeadersAtOffset(chunk offset, num_values)", "PageHeadersAtOffset(page offset, remaining)"]})
+    judge_programs(ck, ok, ["C16", "HARNESS"], "c16", describe=history_key_cfg)
+    ck.assumptions += ["harness/pq footer decode and sequential page walk are the independent reference"]
+    ck.finish()
+
+
+CHECKS["C16"] = c16
